@@ -20,6 +20,11 @@ pub enum TOp {
     /// insert a DIFFERENT node object that carries the key of member `k` and already has an
     /// edge to node `nb` (the insert is refused; the object stays alive with the harness)
     InsertOther { k: usize, nb: usize },
+    /// `u.try_connect(x)` where `x` is a DIFFERENT node object that carries the key of node `k`:
+    /// whether the caller "already has an edge to that node" is a question about keys. If the
+    /// call succeeds the new edge is taken away again at once, so that no node ever has two
+    /// neighbours with one key.
+    TryConnectTwin { u: usize, k: usize },
     /// `sole`: the harness drops its own handle first, so that the container holds the only one
     Remove {
         k: usize,
@@ -153,6 +158,16 @@ fn exec<F: Flavour>(w: &mut World<F>, extras: &mut Vec<F::Node>, op: &TOp) -> Ob
             let undone = F::disconnect(&other, *nb).map(|e| e.0).map_err(|_| ());
             let _ = extras;
             Obs::Text(format!("refused insert returned {r}; the other object then has {seen:?}; its edge: {undone:?}"))
+        }
+        TOp::TryConnectTwin { u, k } => {
+            if *u >= w.nodes.len() || *k >= w.nodes.len() {
+                return Obs::Unit;
+            }
+            let other = F::node_new(*k, crate::payload::NVal::new(1, 6000 + *k as u64));
+            let r = F::try_connect(&w.nodes[*u], &other, crate::payload::EVal::new(41_000));
+            let undone = if r.is_ok() { F::disconnect(&w.nodes[*u], *k).map(|e| e.0).map_err(|_| ()) } else { Err(()) };
+            let left = (F::out_degree(&other), F::in_degree(&other));
+            Obs::Text(format!("try_connect towards another object with the key of node {k} returned {r:?}; taken away again: {undone:?}; that object then has degrees {left:?}"))
         }
         TOp::Remove { k, sole } => {
             let own_is_member = *k < w.nodes.len() && F::g_get(w.graph.as_ref().unwrap(), *k).map(|n| F::vid(&n)) == Some(F::vid(&w.nodes[*k]));
@@ -427,7 +442,8 @@ impl Engine for Twin {
                         TOp::InsertOther { k, nb }
                     }
                 }
-                59..=62 => TOp::Insert { u: rng.below(n) },
+                59 => TOp::TryConnectTwin { u: rng.below(n), k: rng.below(n) },
+                60..=62 => TOp::Insert { u: rng.below(n) },
                 63..=64 => TOp::Get { k },
                 65 => TOp::Index { k: rng.below(n) },
                 66 => TOp::Contains { k },
@@ -592,6 +608,7 @@ impl Engine for Twin {
                     TOp::Node(op) => gen::remap_op(op, k).is_none(),
                     TOp::Insert { u } => *u == k,
                     TOp::InsertOther { k: x, nb } => *x == k || *nb == k,
+                    TOp::TryConnectTwin { u, k: x } => *u == k || *x == k,
                     TOp::Remove { k: x, .. } | TOp::Get { k: x } | TOp::Index { k: x } | TOp::Contains { k: x } => *x == k,
                     TOp::EdgeEq { u, v, .. } | TOp::EdgeCmp { u, v, .. } | TOp::NodeCmp { u, v } => *u == k || *v == k,
                     TOp::EdgeReverse { u, .. } | TOp::IterInto { u } => *u == k,
